@@ -268,6 +268,66 @@ theorem run_needs (c : Cfg) : ∀ (is : Items) (bs rest : Bytes) (st st' : DStat
       omega
     | _ => simp [runTotal]
 
+/-- no array size modifier anywhere in the field list -/
+def ModFree (all : Items) : Prop := ∀ id w m, sizeField id all = some (w, m) → id = "_payload_" ∨ m = 0
+
+theorem sizeFieldIn_plain (id : String) : ∀ (fs : List BitField), fs.all Py.bfPlain = true → ∀ w m,
+    sizeFieldIn id fs = some (w, m) → id = "_payload_" ∨ m = 0
+  | [], _, w, m, h => by simp [sizeFieldIn] at h
+  | f :: fs, hp, w, m, h => by
+    simp only [List.all_cons, Bool.and_eq_true] at hp
+    cases f with
+    | size t w' m' =>
+      simp only [sizeFieldIn] at h
+      split at h
+      · rename_i ht
+        simp only [Option.some.injEq, Prod.mk.injEq] at h
+        simp only [Py.bfPlain, Bool.or_eq_true, beq_iff_eq] at hp
+        have ht' : t = id := by simpa using ht
+        rcases hp.1 with h1 | h1
+        · exact Or.inl (by rw [← ht', h1])
+        · exact Or.inr (by rw [← h.2, h1])
+      · exact sizeFieldIn_plain id fs hp.2 w m h
+    | _ => exact sizeFieldIn_plain id fs hp.2 w m (by simpa [sizeFieldIn] using h)
+
+theorem sizeField_wf (all : Items) (id : String) :
+    ∀ (is : Items), wfItems all is = true → ∀ w m, sizeField id is = some (w, m) → id = "_payload_" ∨ m = 0
+  | .nil, _, w, m, h => by simp [sizeField] at h
+  | .cons i r, hw, w, m, h => by
+    simp only [wfItems, Bool.and_eq_true] at hw
+    have hr := sizeField_wf all id r hw.2
+    cases i with
+    | chunk fs =>
+      simp only [sizeField] at h
+      cases hin : sizeFieldIn id fs with
+      | some x =>
+        rw [hin] at h
+        simp only [Option.some_or, Option.some.injEq] at h
+        subst h
+        exact sizeFieldIn_plain id fs (by simpa [wfItem] using hw.1) w m hin
+      | none =>
+        rw [hin] at h
+        simp only [Option.none_or] at h
+        exact hr w m h
+    | typedef a b c' => exact hr w m (by simpa [sizeField] using h)
+    | optional a b c' d => exact hr w m (by simpa [sizeField] using h)
+    | payload md => exact hr w m (by simpa [sizeField] using h)
+    | array a b c' d e => exact hr w m (by simpa [sizeField] using h)
+
+theorem subModifier_id (all : Items) (hall : ModFree all) (id : String) (hid : id ≠ "_payload_") (s : Option Nat) :
+    subModifier all id s = s := by
+  unfold subModifier
+  cases s with
+  | none => rfl
+  | some sz =>
+    cases hf : sizeField id all with
+    | none => rfl
+    | some x =>
+      obtain ⟨w, m⟩ := x
+      rcases hall id w m hf with h | h
+      · exact absurd h hid
+      · subst h; simp
+
 mutual
 theorem ty_ref (c : Cfg) : ∀ (ty : Ty), wfTy ty = true → isStruct ty = true → ∀ bs, bs.length < usizeMax →
     Refines (decElem c ty bs) (Pdlv.decTy (ideal c) ty bs)
@@ -277,10 +337,10 @@ theorem ty_ref (c : Cfg) : ∀ (ty : Ty), wfTy ty = true → isStruct ty = true 
   | .struct _ (.root nm items), hw, _, bs, hb => by
     simp only [wfTy] at hw
     simp only [decElem, Pdlv.decTy, Cxx.decBody, Pdlv.decBody]
-    exact Refines.bind (items_ref c items items hw false bs DState.empty hb) (fun _ _ => Refines.rfl _)
+    exact Refines.bind (items_ref c items (sizeField_wf items · items hw) items hw false bs DState.empty hb) (fun _ _ => Refines.rfl _)
   | .struct _ (.derived ..), hw, _, _, _ => by simp [wfTy] at hw
 
-theorem item_ref (c : Cfg) (all rest : Items) : ∀ (i : Item), wfItem all rest i = true → ∀ (bs : Bytes) (st : DState),
+theorem item_ref (c : Cfg) (all rest : Items) (hall : ModFree all) : ∀ (i : Item), wfItem all rest i = true → ∀ (bs : Bytes) (st : DState),
     bs.length < usizeMax → Refines (Cxx.decItem c all rest i bs st) (Pdlv.decItem (ideal c) i bs st)
   | .chunk fs, hw, bs, st, _ => by
     simp only [wfItem] at hw
@@ -363,8 +423,8 @@ theorem item_ref (c : Cfg) (all rest : Items) : ∀ (i : Item), wfItem all rest 
         exact Refines.rfl _
     | undelimited => simp [wfItem] at hw
   | .array id elem ew shape pad, hw, bs, st, hb => by
-    simp only [wfItem, Bool.and_eq_true, Option.isNone_iff_eq_none] at hw
-    obtain ⟨⟨hpad, hwt⟩, hshape⟩ := hw
+    simp only [wfItem, Bool.and_eq_true, Option.isNone_iff_eq_none, bne_iff_ne, ne_eq] at hw
+    obtain ⟨⟨⟨hpad, hidp⟩, hwt⟩, hshape⟩ := hw
     subst hpad
     have hnc : ∀ nm w, elem ≠ .custom nm w := by
       intro nm w h; subst h; simp [wfTy] at hwt
@@ -390,7 +450,7 @@ theorem item_ref (c : Cfg) (all rest : Items) : ∀ (i : Item), wfItem all rest 
         exact ⟨cc, rfl, hshape.2.1, hshape.2.2⟩
     have harr := array_ref (decElem c elem) (Pdlv.decTy (ideal c) elem) ew shape (countWidth id all)
       (st.ctx.get (.count id)) (st.ctx.get (.size id)) (st.ctx.get (.esize id)) bs hb hel hcw
-    simp only [Cxx.decItem, Pdlv.decItem, afterPad, withPad, ideal]
+    simp only [Cxx.decItem, Pdlv.decItem, afterPad, withPad, ideal, subModifier_id all hall id hidp]
     by_cases hk : arrayKeysOk ew shape (st.ctx.get (.count id)) (st.ctx.get (.size id)) (st.ctx.get (.esize id)) = true
     · simp only [hk, Bool.not_true, Bool.false_eq_true, ↓reduceIte]
       exact Refines.bind harr (fun _ _ => Refines.of_eq (by simp [Outcome.bind]))
@@ -408,7 +468,7 @@ theorem item_ref (c : Cfg) (all rest : Items) : ∀ (i : Item), wfItem all rest 
         · intro h; cases h
       · intro _ _; exact ⟨_, Eq.refl _⟩
 
-theorem items_ref (c : Cfg) (all : Items) : ∀ (is : Items), wfItems all is = true → ∀ (inRun : Bool) (bs : Bytes) (st : DState),
+theorem items_ref (c : Cfg) (all : Items) (hall : ModFree all) : ∀ (is : Items), wfItems all is = true → ∀ (inRun : Bool) (bs : Bytes) (st : DState),
     bs.length < usizeMax → Refines (Cxx.decItems c all is inRun bs st) (Pdlv.decItems (ideal c) is bs st)
   | .nil, _, _, bs, st, _ => Refines.rfl _
   | .cons i r, hw, inRun, bs, st, hb => by
@@ -418,9 +478,9 @@ theorem items_ref (c : Cfg) (all : Items) : ∀ (is : Items), wfItems all is = t
         (Pdlv.decItems (ideal c) (.cons i r) bs st) := by
       intro b
       simp only [Pdlv.decItems]
-      refine Refines.bind (item_ref c all r i hw.1 bs st hb) (fun x hx => ?_)
+      refine Refines.bind (item_ref c all r hall i hw.1 bs st hb) (fun x hx => ?_)
       have := decItem_consumes (ideal c) i bs st x.1 x.2 hx
-      exact items_ref c all r hw.2 b x.2 x.1 (by omega)
+      exact items_ref c all hall r hw.2 b x.2 x.1 (by omega)
     cases hr : runLen i with
     | none => exact step false
     | some n =>
@@ -441,7 +501,7 @@ theorem struct_parser_refines_reference (c : Cfg) (nm : String) (items : Items) 
     Refines (Cxx.decBody c (.root nm items) bs) (Pdlv.decBody (ideal c) (.root nm items) bs) := by
   simp only [wfBody] at hw
   simp only [Cxx.decBody, Pdlv.decBody]
-  exact Refines.bind (items_ref c items items hw false bs DState.empty hb) (fun _ _ => Refines.rfl _)
+  exact Refines.bind (items_ref c items (sizeField_wf items · items hw) items hw false bs DState.empty hb) (fun _ _ => Refines.rfl _)
 
 end Cxx
 end Pdlv
